@@ -7,6 +7,7 @@ import (
 	"fmt"
 	"math"
 	"math/big"
+	"strconv"
 	"strings"
 
 	"github.com/db47h/decimal"
@@ -250,6 +251,8 @@ func (g *Gen) genConv(p *Prog) {
 		if g.chance(0.6) {
 			if op == "text" {
 				p.Exec(fmt.Sprintf("text %d e -1", v))
+			} else if op == "rat" {
+				p.Exec(fmt.Sprintf("rat %d %d", v, g.intn(4)))
 			} else {
 				p.Exec(fmt.Sprintf("%s %d", op, v))
 			}
@@ -280,6 +283,26 @@ func (g *Gen) genRaw(p *Prog) {
 				words[i] = "1000000000000000000"
 			default:
 				words[i] = fmt.Sprint(g.r.Uint64() % 10000000000000000000)
+			}
+		}
+		if n >= 2 && g.chance(0.3) {
+			// a short top word (the normalisation shifts by 19-d digits) above words with high leading digits
+			// ending in runs of nines: the worst cases of the division-by-10^k tables
+			d := 1 + g.intn(18)
+			top := uint64(1)
+			for k := 1; k < d; k++ {
+				top *= 10
+			}
+			top += g.r.Uint64() % (9 * top)
+			words[n-1] = fmt.Sprint(top)
+			for i := 0; i < n-1; i++ {
+				j := uint64(1)
+				for k := g.intn(19); k > 0; k-- {
+					j *= 10
+				}
+				w := 7000000000000000000 + g.r.Uint64()%3000000000000000000
+				w = w - w%j + (j - 1)
+				words[i] = fmt.Sprint(w)
 			}
 		}
 		for i := n - 1; i >= 0 && g.chance(0.4); i-- {
@@ -454,7 +477,32 @@ func (g *Gen) genContext(p *Prog, steps int) {
 
 // genGob: GobEncode/GobDecode round trips and hostile payloads (C17).
 func (g *Gen) genGob(p *Prog) {
+	if g.chance(0.04) {
+		// precisions at the top of the uint32 range (only encoded and decoded: nothing is computed at that precision)
+		v := g.finite()
+		v.Prec = []uint{decimal.MaxPrec, decimal.MaxPrec - 17, decimal.MaxPrec - 18, decimal.MaxPrec - 1, 4000000000}[g.intn(5)]
+		xi := p.Load(v)
+		p.Exec(fmt.Sprintf("gobenc %d", xi))
+		z := p.Load(Val{Form: 0, Prec: 0})
+		p.Exec(fmt.Sprintf("gobrt %d %d", z, xi))
+		return
+	}
 	x := g.any()
+	if g.chance(0.05) {
+		// an infinity (or zero) produced by overflow / underflow keeps a non-Exact accuracy: it must be transmitted
+		v := g.finite()
+		if g.chance(0.5) {
+			v.Exp = int64(decimal.MaxExp) - int64(g.intn(3))
+		} else {
+			v.Exp = int64(decimal.MinExp) + int64(g.intn(3))
+		}
+		xi := p.Load(v)
+		p.Exec(fmt.Sprintf("mul %d %d %d", xi, xi, xi))
+		p.Exec(fmt.Sprintf("gobenc %d", xi))
+		z := p.Load(Val{Form: 0, Prec: 0})
+		p.Exec(fmt.Sprintf("gobrt %d %d", z, xi))
+		return
+	}
 	xi := p.Load(x)
 	// give x a non-Exact accuracy sometimes, by rounding it
 	if x.Form == 1 && len(x.Digits) > 1 && g.chance(0.4) {
@@ -554,6 +602,27 @@ func (g *Gen) valForText(forF bool) Val {
 	}
 	if x.Form == 1 && forF && (x.Exp > 400 || x.Exp < -400) {
 		x.Exp = int64(g.intn(61) - 30)
+	}
+	if forF && g.chance(0.06) {
+		// integers of 20 digits on both sides of 2^64 (and of 19/39 digits at the word boundary)
+		v := new(big.Int)
+		switch g.intn(4) {
+		case 0:
+			v.SetUint64(math.MaxUint64)
+			v.Add(v, big.NewInt(int64(g.intn(2000)-1000)))
+		case 1:
+			v.SetString("99999999999999999999", 10)
+			v.Sub(v, big.NewInt(int64(g.intn(1000))))
+		case 2:
+			v.SetString("18446744073709551616", 10)
+			v.Mul(v, big.NewInt(int64(1+g.intn(5))))
+			v.Add(v, big.NewInt(int64(g.intn(100))))
+		default:
+			v.SetString("10000000000000000000", 10)
+			v.Add(v, big.NewInt(int64(g.intn(1000))))
+		}
+		x = intToVal(v, 0, g.intn(2) == 0, uint(g.intn(3)), g.mode())
+		return x
 	}
 	if x.Form == 1 && forF && g.chance(0.2) {
 		// small numbers whose %f text has whole words of leading zeros: "0." + zeros + digits with a total digit
@@ -712,6 +781,24 @@ var litAlphabet = []byte("0123456789abcdefABCDEFxXoOpP_.+-eEinfIN ")
 func (g *Gen) genParse(p *Prog) {
 	prec := g.prec(true)
 	z := p.loadMaybeInexact(g.receiver(prec, g.mode()), true)
+	if g.chance(0.08) {
+		// fmt.Sscan (the Scan method): leading space, longest valid prefix, what may follow a number - including
+		// multi-byte runes whose low byte looks like a digit (U+0130..U+0139 end in 0x30..0x39)
+		num := []string{"1", "12.5", "-3e2", "+0.25", "7_7", "0x1F", "0b101", "1e", "", "-", "9999999999999999999999", "0.000001"}[g.intn(12)]
+		if g.chance(0.4) {
+			num = g.digitsPattern(1 + g.intn(30))
+		}
+		tail := []string{"", " 2", "x", ",", "\n5", "\u0133", "\u0135x", "\u0139", "\u00e9", "e", "_", "\u20ac", "\xff", "\u0131\u0132"}[g.intn(14)]
+		if t, err := strconv.Unquote(`"` + tail + `"`); err == nil {
+			tail = t
+		}
+		lead := []string{"", " ", "  \t", "\n"}[g.intn(4)]
+		if t, err := strconv.Unquote(`"` + lead + `"`); err == nil {
+			lead = t
+		}
+		p.Exec(fmt.Sprintf("sscan %d %x", z, lead+num+tail))
+		return
+	}
 	if g.chance(0.06) {
 		// zero literals of every spelling into a receiver that may carry an inexact accuracy from earlier use
 		zs := []string{"0", "-0", "+0", "0e10", "0.000", "-0.0e-5", "0x0p3", "0_0.0_0", "0b0", "00", "0E0"}[g.intn(11)]
